@@ -32,6 +32,17 @@ class Source:
             tree = ast.parse(text, filename=path)
             self.trees[mod] = tree
             self._index(mod, tree.body, '')
+            # module-level imports, read from the source (name -> ('module', dotted) | ('from', module, name))
+            imp = {}
+            for node in tree.body:
+                if isinstance(node, ast.Import):
+                    for a in node.names:
+                        imp[(a.asname or a.name).split('.')[0]] = ('module', a.name if a.asname else a.name.split('.')[0])
+                elif isinstance(node, ast.ImportFrom):
+                    for a in node.names:
+                        imp[a.asname or a.name] = ('from', node.module, a.name)
+            self.module_imports = getattr(self, 'module_imports', {})
+            self.module_imports[mod] = imp
 
     def _index(self, mod, body, prefix):
         for node in body:
